@@ -116,13 +116,21 @@ func RunBatch(seed uint64, family string, from, count int, quiet bool, progressF
 			x.openGate()
 		}
 		if verdict != "done" {
-			if br.StuckAbandoned >= 4 {
-				break // this process is polluted with abandoned goroutines; let the driver go on
-			}
-			continue
+			break // this process is polluted with abandoned goroutines; the driver goes on with other batches
 		}
 		if quiet {
 			br.JobsSubmitted += int64(len(sc.Jobs))
+			edges := 0
+			for _, j := range sc.Jobs {
+				edges += len(j.Deps)
+			}
+			if edges > 0 || len(sc.Jobs) >= 2 {
+				br.NonTrivial["C12"]++
+				distinct[scenarioHash(sc)] = struct{}{}
+			}
+			if len(br.Samples) < 2 && len(sc.Jobs) <= 12 && len(sc.Jobs) >= 3 {
+				br.Samples = append(br.Samples, sc)
+			}
 			continue
 		}
 		if x.leakIncon {
@@ -245,11 +253,11 @@ func watch(done chan struct{}, x *Exec, quiet bool) (string, string) {
 		for k := 0; k < 3 && allBlocked; k++ {
 			text = dumpAll()
 			for _, g := range parseDump(text) {
-				if g.has("sched.watch") {
+				if g.Has("sched.watch") {
 					continue // this goroutine
 				}
 				sets[k] = append(sets[k], g)
-				if !g.blocked() {
+				if !g.Blocked() {
 					allBlocked = false
 				}
 			}
@@ -268,7 +276,7 @@ func watch(done chan struct{}, x *Exec, quiet bool) (string, string) {
 		if static > 15*time.Second && x.inflight.Load() == 0 && Progress.Load() == last {
 			spinning := false
 			for _, g := range sets[0] {
-				if g.inScheduler() && !g.blocked() {
+				if g.InScheduler() && !g.Blocked() {
 					spinning = true
 				}
 			}
